@@ -31,7 +31,11 @@ pub fn check_forget(rep: &mut Report, p: &Params, prefix: &[In], suffix_ext: &[I
     let mut s = Inst::new(p);
     let mut rm = RefModel::new(p);
     let exact = matches!(kind, Kind::Min | Kind::Max | Kind::Fast);
-    for x in prefix {
+    for (i, x) in prefix.iter().enumerate() {
+        // the full-history instance also changes identity (clone / restore) inside the prefix
+        if prefix.len() > 6 && i == prefix.len() / 2 {
+            a.perturb(i);
+        }
         if a.feed(x).is_err() {
             return;
         }
@@ -167,6 +171,19 @@ pub fn run(ctx: &Ctx) -> Report {
             let pre = scalar_prefix(&mut rng, plen, *r, level);
             let suf = BandGen::new(BAND_REGIMES[(r + 5) % BAND_REGIMES.len()], level / 30.0, rng.u64()).take(sl + ext);
             (pre.iter().map(|x| In::S(*x)).collect(), suf.iter().map(|x| In::S(*x)).collect())
+        };
+        // the comparison-only and accumulating indicators are sign-agnostic: a fifth of their scalar pairs
+        // are shifted so that histories cross zero and contain exact zeros (ratio oscillators keep positive prices)
+        let (prefix, suffix_ext) = if !bars && r % 5 == 4 && !matches!(kind, Kind::Roc | Kind::Er) {
+            let shift = level * 40.0;
+            let f = |v: &In| match v {
+                In::S(x) => In::S(if (x - shift).abs() < 0.02 * shift { 0.0 } else { x - shift }),
+                b => *b,
+            };
+            rep.count("pairs.mixed_sign_with_zeros");
+            (prefix.iter().map(f).collect::<Vec<In>>(), suffix_ext.iter().map(f).collect::<Vec<In>>())
+        } else {
+            (prefix, suffix_ext)
         };
         let tag = if r % 3 == 2 || (!bars && r % 4 == 2) { "after_spikes" } else { "plain" };
         check_forget(rep, &p, &prefix, &suffix_ext, tag);
